@@ -68,6 +68,10 @@ def event_names(case: dict) -> list[str]:
     return run_case(c, count=True).event_names
 
 
+def _exit_on_sigterm(signum, frame):
+    sys.exit(128 + signum)
+
+
 def run_case(case: dict, count: bool = False) -> Outcome:
     out = Outcome()
     d = tempfile.mkdtemp(prefix='sf-', dir=os.environ.get('VERIF_SCRATCH'))
@@ -97,6 +101,12 @@ def run_case(case: dict, count: bool = False) -> Outcome:
             os.environ['VERIF_LINE_FAULT'] = f"{inj['at'] if inj['kind'] == 'line' else 'count'}|{inj.get('action', 'raise')}|{linelog}"
         lab = labtech.Lab(storage=storage, runner_backend=case['backend'], context={'gen': 'new'}, notebook=False, max_workers=1)
         task2 = make_task(case)
+        old_term = None
+        if case.get('host_sigterm'):
+            # the host program has its own SIGTERM handler (the common "exit cleanly" one); forked workers inherit it, so a
+            # terminate arrives inside the worker as SystemExit and the save's clean-up can run
+            import signal as _sig
+            old_term = _sig.signal(_sig.SIGTERM, _exit_on_sigterm)
         if overwrite:
             # history: the Lab that is about to replace the entry has already looked at it (exists() is not a fault point)
             try:
@@ -109,6 +119,9 @@ def run_case(case: dict, count: bool = False) -> Outcome:
         except BaseException as ex:
             out.reported = f'raised:{type(ex).__name__}'
         finally:
+            if old_term is not None:
+                import signal as _sig
+                _sig.signal(_sig.SIGTERM, old_term)
             from pbt import faults
             faults.disarm()
             os.environ.pop('VERIF_RUN_HOOK', None)
@@ -322,6 +335,8 @@ def run_kill_case(case: dict) -> tuple[Outcome, str]:
 def judge_kill(case: dict, out: Outcome, disk_class: str) -> list[core.Finding]:
     findings = []
     phase = 'overwrite' if case.get('overwrite') else 'first-save'
+    if case.get('host_sigterm'):
+        phase += ':terminated-under-an-inherited-SIGTERM-handler'
     if not out.reached:
         return findings
     if out.reported != 'failed':
